@@ -113,6 +113,8 @@ def stream_letters(seq):
     L += [("take", "inf"), ("peek", "inf"), ("list",)]
   for n in (-2, 0, 1, 2, 5, 1.6):
     L.append(("skip", n))
+  if seq.finite:
+    L.append(("skip", 2 ** 64))       # any count is legal: beyond the machine word the rest is simply dropped
   for n in (-1, 0, 1, 2, 5, 1.6):
     L.append(("limit", n))
   L += [("append1",), ("appendp",), ("map",), ("copy",), ("tee", 2), ("tee", 3),
